@@ -18,7 +18,8 @@ RULE = ("For each of the exported optimizer classes Hypothesis draws parameter d
         "<=> set_config_parameters(d) accepts, rejections are ValidationError, on acceptance optimizer.configuration "
         "== ConfigClass(**d) (pydantic equality, same class); run equivalence (exact, as in C07) between "
         "cls(ConfigClass(**d)).optimize(t) and o = cls(); o.set_config_parameters(d); o.optimize(t), also when the instance "
-        "already had a different configuration (set earlier, or given to the constructor, with or without a run in between). Non-trivial = dictionary that differs from "
+        "already had a different configuration (set earlier, or given to the constructor, with or without a run in between; "
+        "in half of these cases the earlier configuration differs from the new one in one or two algorithm parameters only). Non-trivial = dictionary that differs from "
         "the documented-scale configuration in an algorithm field, or a rejected dictionary; distinct = SHA-256 of the "
         "case.")
 ASSUMPTIONS = ["the config class of an optimizer is <Optimizer>Config as frozen in baselines/fixture_configs.json",
@@ -85,6 +86,14 @@ def case(draw, optimizer, tier):
     if "after" in scenario or (scenario in ("mutated", "valid") and draw(st.booleans())):
         prev = dict(params)
         prev.update(draw(strategies.config_spec(optimizer, max_cycles=(1, 8), perturb=0.5, reverse_lists=True)))
+        algo_keys = sorted(k for k in kw if k not in registry.BASE_FIELDS
+                           and isinstance(kw[k], (int, float, list)) and not isinstance(kw[k], bool))
+        if algo_keys and draw(st.booleans()):
+            # a sibling of the new configuration: same population size and stopping options, one or two algorithm
+            # parameters different (anything derived from the earlier parameters and kept on the instance is now stale)
+            prev = copy.deepcopy(kw)
+            for k in draw(st.lists(st.sampled_from(algo_keys), min_size=1, max_size=2, unique=True)):
+                prev[k] = strategies._perturb(draw, prev[k])
         payload["previous"] = prev
         # how the instance got its earlier configuration: set on a bare instance, given to the constructor, and in
         # the *_and_run scenarios used for a run first (so that anything computed lazily from it has been computed)
